@@ -113,6 +113,19 @@ def run(ck, rng, tier):
                             break
                     if bad:
                         break
+            if bad is None:
+                # the stored score IS the linear discriminant of the stored model, to rounding of double arithmetic:
+                # mu_k' C x - mu_k' C mu_k / 2 + log prior_k
+                mu_, C_, lp_ = np.array(o["mu"]), np.array(o["inv_cov"]), np.log(np.array(o["pprob"]))
+                for which, XX in (("train", X), ("test", Xt)):
+                    S = np.array(o["score_" + which])
+                    lin, quad = XX @ C_.T @ mu_.T, 0.5 * np.einsum("ki,ij,kj->k", mu_, C_, mu_)
+                    want = lin - quad + lp_
+                    scale = np.abs(XX) @ np.abs(C_.T) @ np.abs(mu_.T) + 0.5 * np.einsum("ki,ij,kj->k", np.abs(mu_), np.abs(C_), np.abs(mu_)) + np.abs(lp_)
+                    if S.shape != want.shape or (np.abs(S - want) > 1e-11 * scale + 1e-300).any():
+                        r_, k_ = np.unravel_index(np.argmax(np.abs(S - want) / scale), S.shape) if S.shape == want.shape else (0, 0)
+                        bad = ("score_not_discriminant", "stored score of %s object %d, class %d is %.17g, the linear discriminant of the stored model is %.17g" % (which, r_, k_, S[r_, k_] if S.shape == want.shape else float("nan"), want[r_, k_]))
+                        break
             cents = np.array([X[[j for j in range(n) if lab[j] == k]].mean(axis=0) for k in range(ncl)])
             spread = max(np.sqrt(((X[[j for j in range(n) if lab[j] == k]] - cents[k]) ** 2).sum(axis=1)).max() for k in range(ncl))
             mind = min(np.linalg.norm(cents[a] - cents[b]) for a in range(ncl) for b in range(a + 1, ncl))
